@@ -38,11 +38,15 @@ PROP = {
             "c17m (recovery-format switch, package syncer): corpus (D22 witnesses); new / old id mapped, mode marker stored / missing (inferred) / "
             "invalid, desired mode sync / pipeline / parallel, root checkpoint older or newer than the recovery state, second DB holding an older "
             "root, frontier + journal (gaps, trimmed records) or latest record: real resolveBisyncCheckpointNameWithClient. "
-            "Every write request of an operation is a crash point: vfdoubles.Replay of the request prefix, then the REAL GetCheckpointHash + "
-            "GetCheckpoint. Requests (DB, key, fields, values) and the position after every prefix vs Lean (updateReqs / gcReqs / migrateReqs). "
+            "Every write request of an operation is a crash point (format switch: EVERY request it issues, also those on the old namespace's "
+            "latest / marker / journal keys): vfdoubles.Replay of the request prefix, then the REAL GetCheckpointHash + "
+            "GetCheckpoint. Requests (DB, key, fields, values) and the position after every prefix vs Lean (updateReqs / gcReqs / migrateReqs); "
+            "one HSET / HDEL / DEL is atomic, so the order of its field-value pairs / fields / keys is not an observable: both sides render them sorted by name. "
             "Monitors on the real code: position after any prefix not smaller and in the same DB (on states meeting the stated preconditions, "
             "counted per reason in input_distribution pre_*; a rename cut after its first HSET is monitored as class rename-cut); the REAL next start "
-            "after every update prefix (id ordering of syncer.updateCheckpoint + UpdateCheckpoint re-run to completion + GetCheckpoint under the LOCAL key); "
+            "after every update prefix (id ordering of syncer.updateCheckpoint + UpdateCheckpoint re-run to completion + GetCheckpoint under the LOCAL key; "
+            "this transcription, VfNextStart, is tied in c17st); an entry whose offset was stored without its run id is never promoted to a position "
+            "(update-invents-position, D27); "
             "after every prefix of a format switch the real resolve re-run + real RedisOutput.StartPoint (bisyncStartPoint) must not resume before the old "
             "namespace's start; gc never deletes in the DB holding the unique largest offset of a live id; entries WITHOUT _mtime (what the replay path "
             "writes) and mtime 0 are generated in 1/3 of the DBs incl. the newest. "
@@ -54,6 +58,12 @@ PROP = {
             "c17gs (gc while the sender runs): the real sendAof under virtual time replays a stream visiting several source DBs, the real gc runs between two "
             "batches, the stream returns to a DB visited before; after EVERY request prefix a fresh RedisOutput.StartPoint must still read the session's run id "
             "and a not smaller offset. "
+            "c17st (the production path of 'move to a new replication id', package syncer): the REAL syncer.updateCheckpoint (it dials: the double sits "
+            "behind a loopback listener), the REAL RedisOutput.SetRunId and the REAL RedisOutput.StartPoint: restart after a failover (ids [new, old]) reads the "
+            "stored position; SetRunId(new) - every request prefix a crash point, the next real start reads a position not smaller in the same DB; the "
+            "replay's fields under the new id advance it; once the source stops reporting the old id (ids [new, other]) the next start still reads it "
+            "(position in DB 0 and in other DBs, pending key rename). On 150+ arbitrary bookkeeping states the real start and VfNextStart must read the same "
+            "position and leave the same state (harness-next-start-differs). "
             "distinct_nontrivial = distinct (operation, precondition class, #requests, #hashes, DB of the position)",
     "trusted": ["target double harness/overlay/pkg/vfdoubles/target.go (per-DB keyspace, HSET keeps field order / HDEL removes the key when empty, INFO keyspace lists non-empty DBs, SELECT per connection)",
                 "Go map iteration over INFO keyspace = any order (parameter of the model; the order the real code used is read from the request log)"],
@@ -61,12 +71,13 @@ PROP = {
         "replication ids are 40 hex characters (equal length, no '_'): fetchCheckpoint's HasPrefix/Contains field match is modelled as equality of the parsed (run id, suffix) - the harness generates ids of that shape",
         "preconditions of the safety theorems (checked by the monitor before it judges a case): under the key the hash resolves to, one DB holds the STRICTLY largest offset X >= 0 of the two ids (C02 after the D5 repair: the position written after a SELECT is larger than the one left in the previous DB; with EQUAL offsets in two DBs gc can move the position to the other DB - example in Props/C17.lean), every numeric field of the ids parses, `_runid` fields store their own id, a new key name holds no field of the ids, an orphaned new-id record left by an interrupted re-key is a copy of the old id's record beside it; gc: both ids are reported by a source and one of them alone reads X in that DB",
         "recovery-format switch: the namespace root checkpoint lives in DB 0 (setCheckpoint / seedBisyncNamespace write it there)",
+        "D24's repair keeps <id>_runid/<id>_version of a live id in every DB a gc pass empties of its _offset/_mtime; these two small fields per (id, DB) are never collected while the id is live (when the id dies the whole entry goes): a bounded leak (<= #live ids x #DBs visited), not a correctness problem - fetchCheckpoint reads such a record as offset -1, which is never selected (generated: class norunid/nooffset records, corpus d24_*), its only visible effect is that the DB stays listed in INFO keyspace",
         "one maintenance operation at a time on a target; gc DOES run concurrently with a replaying sender in production: covered sequentially by c17gs (gc between two batches), not as true interleaving inside one request",
         "foreign DEL / FLUSHDB of a database holding a checkpoint is outside the property (remark: writing <id>_runid/<id>_version with every checkpoint HSET in sendCmdsBatch would make the sender robust against it; not done, sender core unchanged)",
         "a format switch the code REFUSES (no authoritative seed: root checkpoint only - pinned by the repo test TestResolveBisyncCheckpointNameRejectsPlainCheckpointFallback -, or a journal gap) issues no request and leaves the target as it was; the start keeps failing until the configured mode is reverted - counted as migrate_refused, not a loss of position",
     ],
     "partial": [
-        "update_rerun_reads_local_stmt (Props/C17.lean, a `def … : Prop`, not proved): after a cut at any prefix the REAL next start runs UpdateCheckpoint again to completion and reads under the LOCAL key; proved: the read through the checkpoint hash at every prefix (update_prefix_safe) and that the crash states of a rename are admissible initial states (LocOk); not proved: that every crash state re-establishes all of UpdPre. The harness monitors exactly this on every crash point (restart-after-update-loses-position, next_start_checked)",
+        "update_rerun_reads_local_stmt (Props/C17.lean, a `def … : Prop`, not proved): after a cut at any prefix the REAL next start runs UpdateCheckpoint again to completion and reads under the LOCAL key; proved: the read through the checkpoint hash at every prefix (update_prefix_safe) and that the crash states of a rename are admissible initial states (LocOk); not proved: that every crash state re-establishes all of UpdPre. The harness monitors exactly this on every crash point (restart-after-update-loses-position, next_start_checked; with the real syncer.updateCheckpoint + SetRunId + StartPoint in c17st)",
         "migrate_prefix_safe bounds the ROOT checkpoint of the namespace in DB 0 (X <= X'); the position a bidirectional start really uses (root overridden by latest record / rebuilt frontier) is not in the theorem - it is monitored on every crash point with the real resolveBisyncCheckpointNameWithClient re-run + the real RedisOutput.StartPoint (migrate-next-start-regresses, migrate_next_start_checked); only requests on the checkpoint hash and the two root keys are crash points",
         "gc_spares_newest_of_live_id / gc_passes_exceptNewest are lemmas that restate the definition (kept for the audit, not required); the property's second sentence is gc_spares_live_id (whole gc pass, ANY live id)",
     ],
@@ -79,7 +90,7 @@ MANIFEST = {
             "DelStaleCheckpoint with exceptNewest never deletes in the database holding the id's largest offset, for every clock position. "
             "Tied to the code by differential correspondence of the real functions against the target double with every request prefix replayed and "
             "the real start-point read, plus independent monitors; literal field/key names regenerated from the source. "
-            "Three defects found and fixed (D13: re-keyed position written into an arbitrary database; D22: format switch dropped a newer root checkpoint; D24: gc deleted the run id fields a running sender relies on).",
+            "Four defects found and fixed (D13: re-keyed position written into an arbitrary database; D22: format switch dropped a newer root checkpoint; D24: gc deleted the run id fields a running sender relies on; D27: an offset stored without its run id was promoted to a position in DB 0).",
     "note": "trusted: Lean kernel (propext, Classical.choice, Quot.sound only), target double, extractor, harness; cmd/syncer.go gcStaleCp closure compared textually with the transliteration",
     "technique": "Lean 4 proof (position predicate preserved request by request, fold invariants over arbitrary DB orders) + differential correspondence over every request prefix (crash points)",
 }
